@@ -121,3 +121,44 @@ Proof.
     assert (Ec1 : in_range (if bv c0 =? 240 then 144 else 128) (if bv c0 =? 244 then 143 else 191) (bv c1) = true) by (apply in_range_spec; exact H1).
     rewrite Ec1. reflexivity.
 Qed.
+
+(* the other direction: utf8.DecodeRune of string(rune) for a Unicode scalar value *)
+Definition scalar (r : N) : Prop := r <= 1114111 /\ ~ (55296 <= r <= 57343).
+Lemma bv_vb x : x < 256 -> bv (vb x) = x.
+Proof. intro H. apply N_ascii_embedding. exact H. Qed.
+
+Theorem encode_decode r s : scalar r -> decode1 (encode_rune r ++ s) = Some (r, encode_rune r, s).
+Proof.
+  intros [Hmax Hns]. unfold encode_rune.
+  destruct (r <? 128) eqn:E1.
+  { cbn [app]. unfold decode1. cbv zeta. rewrite bv_vb by lia. rewrite E1. reflexivity. }
+  destruct (r <? 2048) eqn:E2.
+  { cbn [app]. unfold decode1. cbv zeta. rewrite !bv_vb by lia.
+    assert (A0 : 192 + r / 64 <? 128 = false) by lia. assert (A1 : in_range 194 223 (192 + r / 64) = true) by (apply in_range_spec; lia).
+    rewrite A0, A1. unfold is_cont. rewrite bv_vb by lia.
+    assert (A2 : in_range 128 191 (128 + r mod 64) = true) by (apply in_range_spec; lia). rewrite A2.
+    f_equal. f_equal. f_equal. lia. }
+  assert (Hsur : in_range 55296 57343 r = false) by (unfold in_range; lia). rewrite Hsur.
+  destruct (r <? 65536) eqn:E3.
+  { cbn [app]. unfold decode1. cbv zeta. rewrite !bv_vb by lia.
+    assert (A0 : 224 + r / 4096 <? 128 = false) by lia.
+    assert (A1 : in_range 194 223 (224 + r / 4096) = false) by (unfold in_range; lia).
+    assert (A2 : in_range 224 239 (224 + r / 4096) = true) by (apply in_range_spec; lia).
+    rewrite A0, A1, A2. unfold is_cont. rewrite !bv_vb by lia.
+    assert (A3 : in_range (if 224 + r / 4096 =? 224 then 160 else 128) (if 224 + r / 4096 =? 237 then 159 else 191) (128 + (r / 64) mod 64) = true).
+    { apply in_range_spec. destruct (224 + r / 4096 =? 224) eqn:Ea; destruct (224 + r / 4096 =? 237) eqn:Eb; lia. }
+    assert (A4 : in_range 128 191 (128 + r mod 64) = true) by (apply in_range_spec; lia).
+    rewrite A3, A4. cbn [andb]. f_equal. f_equal. f_equal. lia. }
+  assert (E4 : r <=? 1114111 = true) by lia. rewrite E4.
+  cbn [app]. unfold decode1. cbv zeta. rewrite !bv_vb by lia.
+  assert (A0 : 240 + r / 262144 <? 128 = false) by lia.
+  assert (A1 : in_range 194 223 (240 + r / 262144) = false) by (unfold in_range; lia).
+  assert (A2 : in_range 224 239 (240 + r / 262144) = false) by (unfold in_range; lia).
+  assert (A3 : in_range 240 244 (240 + r / 262144) = true) by (apply in_range_spec; lia).
+  rewrite A0, A1, A2, A3. unfold is_cont. rewrite !bv_vb by lia.
+  assert (A4 : in_range (if 240 + r / 262144 =? 240 then 144 else 128) (if 240 + r / 262144 =? 244 then 143 else 191) (128 + (r / 4096) mod 64) = true).
+  { apply in_range_spec. destruct (240 + r / 262144 =? 240) eqn:Ea; destruct (240 + r / 262144 =? 244) eqn:Eb; lia. }
+  assert (A5 : in_range 128 191 (128 + (r / 64) mod 64) = true) by (apply in_range_spec; lia).
+  assert (A6 : in_range 128 191 (128 + r mod 64) = true) by (apply in_range_spec; lia).
+  rewrite A4, A5, A6. cbn [andb]. f_equal. f_equal. f_equal. lia.
+Qed.
